@@ -153,7 +153,9 @@ def run(ctx, proof):
         ctx.count("env_traces", comp)
     # model correspondence on histories (SA computers on SA games, SAM on SAM games)
     mism = campaign.run_histories(ctx, ["superadditive", "superadditive_cached"], "sa",
-                                  [(3, 20, 12), (4, 10, 14)] if ctx.quick else [(3, 200, 30), (4, 150, 30), (5, 40, 30)], [])
+                                  [(3, 20, 12), (4, 10, 14)] if ctx.quick else [(3, 200, 30), (4, 150, 30), (5, 40, 30)], [],
+                                  alt=True, fresh_check=True)
     mism += campaign.run_histories(ctx, [c for c in comps_run if c.startswith("sam")], "sam",
-                                   [(3, 15, 12), (4, 6, 12)] if ctx.quick else [(3, 150, 30), (4, 100, 30), (5, 20, 20)], [])
+                                   [(3, 15, 12), (4, 6, 12)] if ctx.quick else [(3, 150, 30), (4, 100, 30), (5, 20, 20)], [],
+                                   alt=True, fresh_check=True)
     campaign.report_mismatches(ctx, mism, [], "operation histories: implementation table = GameOps.v/Bounds.v model table after every step")
